@@ -361,8 +361,16 @@ class BaseRunner(ABC, Generic[_Request]):
             # have all started to be handled before we proceed to close idle connections.
             await asyncio.sleep(0)
             self._server.pre_shutdown()
-            await self.shutdown()
-            await self._server.shutdown(self._shutdown_timeout)
+            try:
+                try:
+                    await self.shutdown()
+                finally:
+                    await self._server.shutdown(self._shutdown_timeout)
+            except BaseException:
+                # An on_shutdown handler raised (or we were cancelled): the
+                # cleanup contexts that started must be exited all the same.
+                await self._cleanup_server()
+                raise
         await self._cleanup_server()
 
         self._server = None
